@@ -61,9 +61,21 @@ theorem dead_connection_reported (k : Nat) (writeOk : Bool) (s : Recv.St) :
 
 example : wsBytes [[[1, 2], [3]], [[]], [[4]]] = [1, 2, 3, 4] := by decide
 
+/-- **Nothing received before the loss is dropped (WebSocket, F-05e)**: whatever is in the transport's queue when
+the transport is closed - every message the reader goroutine received completely - is delivered to the receive loop,
+in order, BEFORE the read that reports the closed transport; and on an open transport the loop blocks after them. -/
+theorem ws_read_delivers_before_error (q : List (List UInt8)) (closed : Bool) :
+    wsDrain (q.length + 1) q closed = q.map ReadOut.data ++ [if closed then ReadOut.err else ReadOut.blocks] := by
+  induction q with
+  | nil => cases closed <;> simp [wsDrain, wsRead]
+  | cons m rest ih => simp [wsDrain, wsRead, ih]
+
+example : wsDrain 3 [[1], [2, 3]] true = [.data [1], .data [2, 3], .err] := by decide
+
 end XmppVerif.Props.Transport
 
 #print axioms XmppVerif.Props.Transport.close_fails_reads
 #print axioms XmppVerif.Props.Transport.ws_bytes_eq
 #print axioms XmppVerif.Props.Transport.ws_framing_irrelevant
 #print axioms XmppVerif.Props.Transport.dead_connection_reported
+#print axioms XmppVerif.Props.Transport.ws_read_delivers_before_error
